@@ -141,6 +141,7 @@ size_t vh_unhex(const char* s, uint8_t** out);
 /* "track": libc pass-through + side table + fault policies */
 void tg_install_variant(unsigned v); /* one of 8 triples made of two copies of each tagged function */
 extern size_t AR_cap;
+extern bool AR_bump_mode; /* header-less back-to-back placement instead of the header-carrying zones (set before ar_install) */
 extern unsigned TG_variant;
 extern uint64_t TG_stale_calls, PT_reallocs, PT_frees;
 void pt_install(void);                /* (libc malloc, counting realloc, counting free) */
